@@ -1,6 +1,7 @@
 import Acra.Drv.FTI
 import Acra.Drv.Float
+import Acra.Drv.Ch11
 namespace Acra.Drv
-def allCodecs : List Codec := ftiCodecs
-def allFuncs : List Func := ftiFuncs ++ floatFuncs
+def allCodecs : List Codec := ftiCodecs ++ Ch11.ch11Codecs
+def allFuncs : List Func := ftiFuncs ++ floatFuncs ++ Ch11.ch11Funcs
 end Acra.Drv
